@@ -37,6 +37,7 @@ def run(check: Check, repo: Repo, tier: str) -> None:
     D.oneof_definition_only(check, repo)
     D.mapper_new_nodes_only(check, repo)
     D.root_overwrite(check, repo)
+    D.root_names_agree(check, repo)  # build(A + B) and extend(build(A), B) agree on the conventional roots only if the convention test is the same
     D.change_flag(check, repo)
     D.cross_schema_identity(check, repo)
     G.zip_filter(check, [repo.mod(mn) for mn in MODS] + [repo.mod("utilities.find_schema_changes")])
